@@ -128,11 +128,11 @@ fn phases(quick: bool, arg: &dyn Fn(&str) -> Option<u64>) -> Vec<Phase> {
     let mut ev = adv(&deltas);
     ev.extend([Ev::AdvLate(6), Ev::AdvLate(21)]);
     let mut al = vec![o(Set::Err, 0), o(Set::Empty, 0), o(Set::Rej, 0), o(Set::P2, 0)];
-    for p in 0..4 {
+    for p in 0..5 {
         al.push(o(Set::P1, p));
         al.push(o(Set::P12, p));
     }
-    v.push(Phase { name: "expiry", what: "clock advances (incl. one late tick) x lookup outcomes {Err, Ok{}, Ok{p4}, Ok{p2}, Ok{p1}/Ok{p1,p2} x 4 expiry profiles}; no issue events", events: ev, alphabet: al, max_depth: arg("--depth-expiry").unwrap_or(if quick { 3 } else { 4 }) as usize, share: 0.25 });
+    v.push(Phase { name: "expiry", what: "clock advances (incl. one late tick) x lookup outcomes {Err, Ok{}, Ok{p4}, Ok{p2}, Ok{p1}/Ok{p1,p2} x 5 expiry profiles (far, soon, near, expired, same = un-renewed)}; no issue events", events: ev, alphabet: al, max_depth: arg("--depth-expiry").unwrap_or(if quick { 3 } else { 4 }) as usize, share: 0.25 });
     // 3. issue focus: all issue kinds, Deliver, advances incl. > 20 half-lives; lookups keep the path set stable
     let ds = [1, 4, 11, 41, 91, long];
     let mut ev = adv(&ds);
@@ -221,6 +221,7 @@ pub fn run(args: &vpc::Args) -> ! {
     let phases = phases(quick, &arg);
     let mut budget_used = 0.0;
     for ph in &phases {
+        SAME_IN_ALPHABET.store(ph.alphabet.iter().any(|o| o.prof == 4), Ordering::Relaxed);
         let phase_start = run.elapsed_s();
         budget_used += ph.share;
         let deadline = budget_s * budget_used;
@@ -349,7 +350,7 @@ pub fn run(args: &vpc::Args) -> ! {
             "alphabet": {
                 "branching_ticks_per_advance": branch_ticks,
                 "issue_kinds": ISSUES.iter().map(|i| i.0).collect::<Vec<_>>(),
-                "expiry_profiles_s": {"far": 1000, "soon": 12, "near": 8, "expired": -1},
+                "expiry_profiles_s": {"far": 1000, "soon": 12, "near": 8, "expired": -1, "same": "expiry of the previous time the path was returned (first time: soon)"},
                 "policy": ACL,
                 "paths": UNIVERSE.iter().map(|d| json!({"name": d.name, "first_egress": d.first_eg, "transit": d.mids, "last_ingress": d.last_in, "metadata": d.has_meta})).collect::<Vec<_>>(),
             },
